@@ -167,6 +167,21 @@ func readHeader(f *os.File) (*header, error) {
 				prevOffset, foundFileSize)
 	}
 
+	if h.compression == Zstandard {
+		// Offsets into the blob are mapped to chunks by dividing by
+		// chunkSize, so the table must have exactly one entry per chunk
+		// (plus the final one), otherwise lookups go out of range.
+		if h.chunkSize == 0 || h.uncompressedSize <= 0 {
+			return nil, fmt.Errorf("invalid chunk size %d or uncompressed size %d",
+				h.chunkSize, h.uncompressedSize)
+		}
+		numChunks := (h.uncompressedSize + int64(h.chunkSize) - 1) / int64(h.chunkSize)
+		if numOffsets-1 != numChunks {
+			return nil, fmt.Errorf("chunk table has %d chunks, but %d bytes in chunks of %d need %d",
+				numOffsets-1, h.uncompressedSize, h.chunkSize, numChunks)
+		}
+	}
+
 	return &h, nil
 }
 
